@@ -142,7 +142,16 @@ pub trait InlinesContext: Copy {
 }
 
 pub fn is_ref_url(url: &str) -> bool {
-    !(url.to_lowercase().starts_with("http://")
-        || url.to_lowercase().starts_with("https://")
-        || url.to_lowercase().starts_with("mailto:"))
+    !(has_authority_scheme(url) || url.to_lowercase().starts_with("mailto:"))
+}
+
+/// `scheme://...` (http, https, ftp, file, ssh, ...): an address outside the library
+fn has_authority_scheme(url: &str) -> bool {
+    url.find("://").map_or(false, |at| {
+        let scheme = &url[..at];
+        scheme.starts_with(|c: char| c.is_ascii_alphabetic())
+            && scheme
+                .chars()
+                .all(|c| c.is_ascii_alphanumeric() || c == '+' || c == '-' || c == '.')
+    })
 }
